@@ -133,9 +133,8 @@ class GotranPythonCodePrinter(PythonCodePrinter):
         return f"({super()._print_Mod(expr)})"
 
     def _print_sign(self, e):
-        return "(0.0 if ({e} == 0) else {f}(1, {e}))".format(
-            f=self._module_format("numpy.copysign"), e=self._print(e.args[0])
-        )
+        # numpy.sign works element-wise; a Python conditional expression does not
+        return "{f}({e})".format(f=self._module_format("numpy.sign"), e=self._print(e.args[0]))
 
 
 def get_formatter(format: Format) -> typing.Callable[[str], str]:
